@@ -94,3 +94,10 @@ Example c13_example_stop :
   | _ => False
   end.
 Proof. vm_compute. reflexivity. Qed.
+
+(* the container is ready when the runners are called, also under the extended semantics (Model/FactoryX.v) *)
+From IocVerif Require Import Model.FactoryX Proofs.FactoryXInv.
+Theorem c13_after_ready_extended : forall s x o st,
+  run_xt repaired s x = (o, Ok st) ->
+  forall n, In n (eager_names s) -> exists v, alookup n (L1 (reg st)) = Some v.
+Proof. intros s x o st H n Hn. exact (run_xt_eager_published repaired s x o st eq_refl H n Hn). Qed.
